@@ -3,6 +3,7 @@ from ..core import Rule
 from ..prog import *
 from ..facts import AnalysisBroken
 from ..consts import ConstFlow
+from ..interp import normx, nkey, run_all
 
 UNITS = ["ws", "sha1"]
 LEVEL = "other"
@@ -391,4 +392,104 @@ def run(ctx, config):
     elif not any(any(q == "htons" for q in (el.mac or [])) or "htons" in (el.mtext or "") for el in sto) and not ht:
         r4.bad("K6:evws_close:byte-order", sto[0].where(), g.name, "status code is not converted to network byte order")
     rules.append(r4)
+    rules.append(rule_sha1_blocks(P))
     return rules
+
+
+def rule_sha1_blocks(P):
+    """SHA1Update's block arithmetic: for every buffer fill 0..63 and every input length in the domain, the 64-byte blocks handed to SHA1Transform are exactly the
+    consecutive blocks of (buffered bytes + input), nothing is skipped or hashed twice, the remainder stays in the buffer, no copy leaves the 64-byte buffer, and the
+    bit count advances by 8*len (typed evaluation, uint32 wrap)."""
+    r = Rule("C32-sha1-blocks", "K6/K4", "SHA1Update: transformed blocks partition the byte stream in order; remainder buffered; copies inside the 64-byte buffer; bit count", floor=3000)
+    f = P.fn("SHA1Update")
+    ctx_, data, ln = f.params[0][0], f.params[1][0], f.params[2][0]
+    C = ["var", ctx_, "param"]
+    kc0 = nkey(["idx", ["fld", C, "SHA1_CTX.count", "->"], ["int", 0]])
+    kc1 = nkey(["idx", ["fld", C, "SHA1_CTX.count", "->"], ["int", 1]])
+    if not any(is_e(q, "fld") and q[2] == "SHA1_CTX.count" for el in f.elems() for q in walk(el.e)):
+        r.brk("SHA1_CTX.count not referenced by SHA1Update")
+        return r
+    lens = list(range(0, 141)) + [191, 192, 193, 255, 256, 257, 320]
+    nb = 0
+    for j0 in range(64):
+        for n in lens:
+            env = {"#typed": 1, ctx_: 1, data: 1000, ln: n, kc0: (j0 * 8) & 0xffffffff, kc1: 0}
+            def hook(el, e_):
+                nm = callee_name(el.e)
+                a = el.e[2]
+                def off(x):
+                    """offset of a pointer expression into ('buf', k) or ('data', k)"""
+                    x = strip(x)
+                    if is_e(x, "addr"):
+                        y = strip(x[1])
+                        if is_e(y, "idx"):
+                            b_ = strip(y[1])
+                            k = evalx(normx(y[2]), e_, P)
+                            if is_e(b_, "fld") and b_[2] == "SHA1_CTX.buffer":
+                                return ("buf", k)
+                            if is_e(b_, "var") and b_[1] == data:
+                                return ("data", k)
+                    if is_e(x, "fld") and x[2] == "SHA1_CTX.buffer":
+                        return ("buf", 0)
+                    if is_e(x, "var") and x[1] == data:
+                        return ("data", 0)
+                    if is_e(x, "bin") and x[1] == "+":
+                        b_ = off(x[2])
+                        return (b_[0], b_[1] + evalx(normx(x[3]), e_, P))
+                    raise EvalError("pointer expression %s" % show(x))
+                try:
+                    if nm in ("memcpy", "__builtin_memcpy", "__builtin___memcpy_chk", "__memcpy_chk"):
+                        e_["#ops"] = e_.get("#ops", ()) + (("copy", off(a[0]), off(a[1]), evalx(normx(a[2]), e_, P)),)
+                        return 0
+                    if nm == "SHA1Transform":
+                        e_["#ops"] = e_.get("#ops", ()) + (("T", off(a[1])),)
+                        return 0
+                except EvalError as ex:
+                    e_["#err"] = str(ex)
+                    return "impure"
+                return None
+            outs = [o for o in run_all(f, (f.entry, 0), env, lambda el: False, P, hook, max_steps=400) if not (o.kind == "exit" and o.why == "noreturn")]
+            if len(outs) != 1 or outs[0].kind not in ("ret", "exit"):
+                r.brk("SHA1Update(fill=%d, len=%d) not evaluable: %s" % (j0, n, [(o.kind, o.why, o.env.get("#err")) for o in outs][:2]))
+                return r
+            o = outs[0]
+            # abstract stream: buffered bytes are ('old', k), input bytes ('in', k)
+            buf = [("old", k) for k in range(j0)] + [None] * (64 - j0)
+            hashed = []
+            oob = None
+            for op in o.env.get("#ops", ()):
+                if op[0] == "copy":
+                    _, (dk, do), (sk, so), cnt = op
+                    if dk != "buf" or sk != "data" or cnt < 0 or do < 0 or do + cnt > 64 or so < 0 or so + cnt > n:
+                        oob = op
+                        break
+                    for k in range(cnt):
+                        buf[do + k] = ("in", so + k)
+                else:
+                    _, (sk, so) = op
+                    if sk == "buf":
+                        hashed += buf[:64]
+                    else:
+                        if so < 0 or so + 64 > n:
+                            oob = op
+                            break
+                        hashed += [("in", so + k) for k in range(64)]
+            stream = [("old", k) for k in range(j0)] + [("in", k) for k in range(n)]
+            nblk = len(stream) // 64
+            want_h = stream[:nblk * 64]
+            rem = stream[nblk * 64:]
+            c0 = o.env.get(kc0)
+            c1 = o.env.get(kc1)
+            total = j0 * 8 + n * 8
+            ok = oob is None and hashed == want_h and buf[:len(rem)] == rem and c0 == (total & 0xffffffff) and c1 == (total >> 32)
+            r.inst((j0, n), {"buffered": j0, "len": n, "blocks_hashed": len(hashed) // 64, "blocks_expected": nblk}, nontrivial=(j0 + n > 63))
+            if not ok and nb < 5:
+                nb += 1
+                why = ("a copy or block read leaves its array: %s" % (oob,)) if oob else ("%d blocks hashed, %d complete blocks in the stream" % (len(hashed) // 64, nblk) if len(hashed) != len(want_h) else
+                       ("hashed bytes are not the stream in order" if hashed != want_h else ("the %d remaining bytes are not what is left in the buffer" % len(rem) if buf[:len(rem)] != rem else "bit count %s/%s, expected %d" % (c0, c1, total))))
+                r.bad("K6:SHA1Update:block-partition", "%s:%d" % (f.file, f.line), f.name, "with %d bytes buffered and %d bytes of input: %s — the digest of such a message omits or repeats input" % (j0, n, why))
+    # the driver hands every input byte to SHA1Update exactly once
+    g = P.fn("builtin_SHA1")
+    ups = list(g.calls("SHA1Update"))
+    r.inst("driver", {"fn": g.name, "update_calls": [u.where() for u in ups]}, nontrivial=False)
+    return r
